@@ -34,7 +34,7 @@ ASSUMPTIONS = ["(c) waits link_timeout + check period + one probe cycle of "
                "virtual time after each change before judging",
                "frames between switches are delivered within 0.5 virtual "
                "seconds"]
-REQUIRED = ["host_frames_that_reached_the_controller_beside_the_probes", "histories_with_discovery_options", "probes", "graphs", "graphs_with_cycles", "graphs_with_oneway",
+REQUIRED = ["histories_with_a_staged_bring_up", "ports_enabled_after_the_switch_connected", "host_frames_that_reached_the_controller_beside_the_probes", "histories_with_discovery_options", "probes", "graphs", "graphs_with_cycles", "graphs_with_oneway",
             "histories", "changes_judged", "flood_probes", "link_events",
             "both_directions_one_sweep", "quiet_periods_checked", "ports_hot_plugged",
             "histories_with_dpids_equal_to_port_numbers",
@@ -241,7 +241,7 @@ def gen_port (sw, no):
 
 
 class Topo (object):
-  def __init__ (self, w, n, dpid_base, initial_ports=4, hub=False, port_map=None):
+  def __init__ (self, w, n, dpid_base, initial_ports=4, hub=False, port_map=None, staged=None):
     self.hub = hub
     self.port_map = port_map or {}
     self.pad = False
@@ -255,6 +255,7 @@ class Topo (object):
     self.up = {}         # (i, port) -> bool: direction from (i,port) works
     self.queue = []
     self.flood_seen = None
+    self.staged = staged or ()
     for i in range(n):
       self.connect(i)
 
@@ -272,6 +273,11 @@ class Topo (object):
                            max_buffers=0)
     sp.on_out = (lambda peer, port, raw, i=i: self.emitted(i, port, raw))
     self.sw[i] = sp
+    # a staged bring-up: the ports towards other switches are administratively
+    # down when the switch connects (its features reply says so) and are
+    # enabled later, each announced by a port-status message
+    for pno in getattr(self, "staged", ()):
+      if pno in sp.switch.ports: sp.switch.ports[pno].config |= 1
     sp.hello()
     self.w.run()
     if self.hub:
@@ -331,7 +337,9 @@ class Topo (object):
     out = set()
     for (i, p), (j, q) in self.phys.items():
       if self.up[(i, p)] and i in self.sw and j in self.sw \
-         and p in self.sw[i].switch.ports and q in self.sw[j].switch.ports:
+         and p in self.sw[i].switch.ports and q in self.sw[j].switch.ports \
+         and not (self.sw[i].switch.ports[p].config & 1) \
+         and not (self.sw[j].switch.ports[q].config & 1):
         out.add((self.dpids[i], p, self.dpids[j], q))
     return out
 
@@ -399,7 +407,10 @@ def run_history (case, rep):
   if pmap: rep.count("histories_with_a_link_on_the_highest_port_number")
   topo = Topo(w, n, base,
               initial_ports=case.get("initial_ports", 4), hub=bool(case.get("hub")),
-              port_map=pmap)
+              port_map=pmap,
+              staged=sorted(set(pm(p_) for w_ in wires for p_ in (w_[1], w_[3])))
+              if case.get("staged") else None)
+  if case.get("staged"): rep.count("histories_with_a_staged_bring_up")
   if case.get("hub"): rep.count("histories_with_a_flood_everything_flow")
   topo.pad = bool(case.get("pad"))
   for (i, p, j, q) in wires: topo.wire(i, pm(p), j, pm(q))
@@ -498,6 +509,19 @@ def run_history (case, rep):
           try: old.worker.close()
           except Exception: pass
           w.run()
+      elif k == "enable":
+        # the ports that were down at connect time come up, one switch after
+        # the other; from then on their links are probed like any other
+        topo.staged = ()
+        for i_ in sorted(topo.sw):
+          sws = topo.sw[i_].switch
+          for pno, port in sorted(sws.ports.items()):
+            if port.config & 1:
+              port.config &= ~1
+              sws.send_port_status(port, 2)
+              w.run()
+          topo.settle(op[1] if len(op) > 1 else 0.5)
+        rep.count("ports_enabled_after_the_switch_connected")
       elif k == "hostpkt":
         # ordinary traffic of a host reaches the controller (a table miss on
         # a host-facing port): an ARP request, an LLDP frame of somebody
@@ -535,7 +559,7 @@ def run_history (case, rep):
       topo.settle(SETTLE)
       rep.count("changes_judged")
       if spurious(mark, gone, "after %s" % (op,)): return True
-      if k == "hotplug":
+      if k in ("hotplug", "enable"):
         # ... and the new links stay
         if not judge(topo, fire, rep, "after %s" % (op,), mine, ev0): return True
         mark2 = len(_st["events"])
@@ -777,6 +801,9 @@ def gen_histories (rng, n, link_timeout=None, st_opts=None, disc_opts=None):
     if rng.random() < 0.25:
       case["initial_ports"] = rng.choice([0, 1])
       case["ops"] = [["hotplug"]] + ops
+    elif rng.random() < 0.25:
+      case["staged"] = True
+      case["ops"] = [["enable", rng.choice([0.5, 2.0, 0])]] + ops
     if link_timeout: case["link_timeout"] = link_timeout
     if rng.random() < 0.35: case["small_dpids"] = True
     if rng.random() < 0.5: case["pad"] = True
